@@ -74,6 +74,7 @@ type FuncCtx struct {
 	obls  []*Obligation
 	fr    *frame
 	key   string
+	replay *ReplayInfo
 
 	callOrd   map[string]int
 	safeOrd   map[string]int
@@ -449,6 +450,9 @@ func (f *FuncCtx) oblige(name, kind string, env *Env, goal string, text string, 
 	}
 	o := &Obligation{Name: f.key + "/" + name, Kind: kind, Fn: f.key, Pkg: f.Pkg.PkgPath, Text: text, Src: src, Props: f.C.Props}
 	o.Query = f.buildQuery(env.pc, goal, false)
+	if kind == "ensures" || strings.HasPrefix(kind, "safe.") || strings.HasPrefix(kind, "unreachable.") {
+		o.Replay = f.replay
+	}
 	if len(f.errs) > 0 {
 		o.Gen = strings.Join(f.errs, "; ")
 	}
